@@ -372,6 +372,9 @@ def run_shard(ctx):
         r = ctx.sub_rng('pairs', name)
         pl = pl + ['%s.%s' % (r.choice(pl[:60]), r.choice(pl[:60]))
                    for _ in range(10)]
+        # scale: 256 and more atoms of one element (C127H256, C140H282,
+        # C260H522)
+        pl = pl + ['C' * 127, 'C' * 140, 'C' * 260]
         if ctx.tier == 'quick':
             pl = [s for k, s in enumerate(pl) if k % 3 == ctx.seed % 3 or
                   k >= len(pl) - 10]
